@@ -152,6 +152,46 @@ def _classify_elem(fn: FuncInfo, e: ast.expr, depth: int = 0) -> Set[str]:
         if name in _STR_TO_STR:
             subject = e.args[0] if e.args else (e.func.value if isinstance(e.func, ast.Attribute) else None)
             return _classify_elem(fn, subject, depth + 1) if subject is not None else {"?"}
+        if name == "reduce" and len(e.args) == 3 and not e.keywords and isinstance(e.args[0], ast.Lambda):  # noqa: PLR2004
+            # a pipeline: `reduce(lambda token, decode: decode(token), decoders, part)` applies the functions of
+            # `decoders` to the element in order; the list is a display plus (possibly conditional) appends
+            lam = e.args[0]
+            ps = [a.arg for a in lam.args.args]
+            b = lam.body
+            if (len(ps) == 2 and isinstance(b, ast.Call) and isinstance(b.func, ast.Name) and b.func.id == ps[1] and len(b.args) == 1  # noqa: PLR2004
+                    and isinstance(b.args[0], ast.Name) and b.args[0].id == ps[0] and not b.keywords and isinstance(e.args[1], ast.Name)):
+                lst = e.args[1].id
+                stores = [n for n in ast.walk(fn.node) if isinstance(n, (ast.Assign, ast.AnnAssign))
+                          and any(isinstance(t, ast.Name) and t.id == lst for t in (n.targets if isinstance(n, ast.Assign) else [n.target]))]
+                others = [n for n in ast.walk(fn.node) if isinstance(n, ast.Name) and n.id == lst and isinstance(n.ctx, (ast.Store, ast.Del))]
+                if len(stores) == 1 and len(others) == 1 and isinstance(stores[0].value, ast.List):
+                    cur = _classify_elem(fn, e.args[2], depth + 1) if not isinstance(e.args[2], ast.Name) or any(
+                        isinstance(n, ast.Assign) and any(isinstance(t, ast.Name) and t.id == e.args[2].id for t in n.targets) for n in ast.walk(fn.node)
+                    ) else {"param"}
+
+                    def apply(fname: Optional[str], cur_: Set[str]) -> Set[str]:
+                        if fname == "str":
+                            return {"str"}
+                        if fname == "_index":
+                            return {"index"}
+                        if fname in _STR_TO_STR:
+                            return cur_
+                        return cur_ | {"?"}
+
+                    for item in stores[0].value.elts:
+                        cur = apply(item.id if isinstance(item, ast.Name) else getattr(item, "attr", None), cur)
+                    # every other use of the list: appends (each keeps or sets the class) and the reduce itself
+                    for n in ast.walk(fn.node):
+                        if isinstance(n, ast.Name) and n.id == lst and isinstance(n.ctx, ast.Load) and n is not e.args[1]:
+                            par = next((c for c in ast.walk(fn.node) if isinstance(c, ast.Call) and isinstance(c.func, ast.Attribute) and c.func.value is n), None)
+                            if par is None or par.func.attr != "append" or len(par.args) != 1:  # type: ignore[union-attr]
+                                return cur | {"?"}
+                            item = par.args[0]
+                            after = apply(item.id if isinstance(item, ast.Name) else getattr(item, "attr", None), cur)
+                            if after != cur and "str" not in cur:
+                                return cur | {"?"}  # a conditional step that changes the class
+                            cur = cur | after if after != cur else cur
+                    return cur - {"param"} if "str" in cur or "index" in cur else cur
         # a function defined inside this one: what it returns
         if isinstance(e.func, ast.Name):
             local = [n for n in ast.walk(fn.node) if isinstance(n, (ast.FunctionDef, ast.AsyncFunctionDef)) and n.name == e.func.id and n is not fn.node]
@@ -466,4 +506,78 @@ def r14_7(ctx: Ctx) -> RuleResult:
     return r4_5(ctx, "R14.7")
 
 
-RULES = [r14_1, r14_2, r14_3, r14_4, r14_5, r14_6, r14_7]
+def r14_8(ctx: Ctx) -> RuleResult:
+    """Joining: `p / t` (and `p.join(t)`) with t in escaped form is p followed by the reference tokens of t - t split
+    at `/` and each piece unescaped (`~1` -> `/`, then `~0` -> `~`) - and a t that starts with a slash replaces p.
+    `JSONPointer.__truediv__` is executed abstractly (rules/model.py) on a base pointer and parts that cover the
+    escapes (an escaped slash must not become a separator), several tokens in one part, index-like and empty tokens;
+    the pointer it constructs must have exactly those tokens and their RFC 6901 spelling as text."""
+    from sa.peval import UNKNOWN
+
+    from .model import RAISES
+    from .model import MObj
+    from .model import Model
+
+    def unescape(tok: str) -> str:
+        return tok.replace("~1", "/").replace("~0", "~")
+
+    def escape(tok: str) -> str:
+        return tok.replace("~", "~0").replace("/", "~1")
+
+    samples = ["b", "b~1c", "x~0y", "~01", "~10", "m/n", "m~1n/o~0p", "0", "01", "7", "", "\u00e9", "a b", "/abs/x", "/", "/q~1r"]
+    bases = [("a",), (), ("x", 3)]
+    rr = RuleResult("R14.8", "joining appends the reference tokens of the part, an absolute part replaces the pointer", floor=len(samples) * len(bases))
+    cls = ctx.repo.require_class("jsonpath.pointer.JSONPointer")
+    fn = ctx.repo.find_method(cls, "__truediv__")
+    if fn is None:
+        raise AnalysisError("R14.8: JSONPointer.__truediv__ not found")
+    for base in bases:
+        for t in samples:
+            made: List[Tuple[List[object], Dict[str, object]]] = []
+            model: Model
+
+            def hook(e: ast.Call, a: List[object], env: Dict[str, object], ex) -> object:  # type: ignore[no-untyped-def]
+                if isinstance(e.func, ast.Name) and e.func.id in ("JSONPointer", "cls"):
+                    kws = {k.arg: ex.value(k.value, env) for k in e.keywords if k.arg}
+                    made.append((list(a), kws))
+                    return MObj(model, "jsonpath.pointer.JSONPointer", {"parts": kws.get("parts", UNKNOWN)})
+                return None
+
+            model = Model(ctx, "R14.8", hook)
+            model.whole_bodies = True
+            base_text = "".join("/" + escape(str(x)) for x in base)
+            obj = MObj(model, "jsonpath.pointer.JSONPointer", {"parts": base, "_s": base_text})
+            r = model.call(obj, "__truediv__", [t])
+            shown = f"JSONPointer({base_text!r}) / {t!r}"
+            if r is RAISES:
+                rr.bad(fn, fn.node, f"{shown} raises", construct=f"{shown} raises")
+                continue
+            if r is UNKNOWN or len(made) != 1:
+                raise AnalysisError(f"R14.8: the abstract execution of {shown} does not construct one pointer ({len(made)})")
+            args, kws = made[0]
+            if t.startswith("/"):
+                want_tokens = [unescape(x) for x in t[1:].split("/")]
+            else:
+                want_tokens = [str(x) for x in base] + [unescape(x) for x in t.split("/")]
+            want_text = "".join("/" + escape(x) for x in want_tokens)
+            text = args[0] if args else kws.get("pointer")
+            parts = kws.get("parts")
+            problems = []
+            if text is UNKNOWN or not isinstance(text, str):
+                raise AnalysisError(f"R14.8: the text of the pointer {shown} constructs cannot be determined")
+            if text != want_text:
+                problems.append(f"its text is {text!r} instead of {want_text!r}")
+            if parts is not None:
+                if parts is UNKNOWN or not isinstance(parts, tuple) or any(not isinstance(x, (str, int)) or isinstance(x, bool) for x in parts):
+                    raise AnalysisError(f"R14.8: the parts of the pointer {shown} constructs cannot be determined")
+                if [str(x) for x in parts] != want_tokens:
+                    problems.append(f"its tokens are {[str(x) for x in parts]} instead of {want_tokens}")
+            if problems:
+                rr.bad(fn, fn.node, f"{shown}: " + " and ".join(problems) + (": an escaped slash in the part has become a separator" if "~1" in t else ""),
+                       construct=f"{shown} -> {[str(x) for x in parts] if isinstance(parts, tuple) else text}")
+            else:
+                rr.ok(fn.loc(), f"{shown} -> tokens {want_tokens}")
+    return rr
+
+
+RULES = [r14_1, r14_2, r14_3, r14_4, r14_5, r14_6, r14_7, r14_8]
